@@ -1099,3 +1099,74 @@ M("c04_reset_to_start_takes_shared_ref", ["C04"], ["C04.W"], [
     ("src/bump.rs", """    pub fn reset_to_start(&mut self) {
         self.raw.reset_to_start();""", """    pub fn reset_to_start(&self) {
         self.raw.reset_to_start();""")])
+
+# ---------------------------------------------------------------- C01.R6 / R7 (bump primitives)
+M("c01_bump_up_no_final_min_align", ["C01"], ["C01.R6"], [
+    ("src/bumping.rs", """        // can't exceed `range.end` and thus also can't overflow.
+        new_pos = up_align_unchecked(new_pos, min_align);""", """        // can't exceed `range.end` and thus also can't overflow.
+        new_pos = up_align_unchecked(new_pos, 1);""")])
+M("c01_bump_down_generic_arm_no_fit_test", ["C01"], ["C01.R7"], [
+    ("src/bumping.rs", """        end = end.saturating_sub(layout.size());
+        end = down_align(end, layout.align().max(min_align));
+
+        // Note that `end` being `0` is an invalid value for `end` and we MUST return None.
+        // Due to `start` being `NonNull`, it can't be `0`.
+        // Thus when `end` is `0` this will always return None.
+        if unlikely(end < start) {
+            return None;
+        }""", """        end = end.saturating_sub(layout.size());
+        end = down_align(end, layout.align().max(min_align));
+
+        if unlikely(end == 0) {
+            return None;
+        }""")])
+M("c01_bump_up_weak_elision_predicate", ["C01"], ["C01.R6"], [
+    ("src/bumping.rs", """    if (align_is_const && size_is_multiple_of_align && layout.align() >= min_align)
+        || (size_is_const && (layout.size() % min_align == 0))""", """    if (align_is_const && size_is_multiple_of_align)
+        || (size_is_const && (layout.size() % min_align == 0))""")])
+M("c01_bump_down_elides_layout_align_wrongly", ["C01"], ["C01.R6"], [
+    ("src/bumping.rs", "let can_elide_aligning_for_layout = size_is_multiple_of_align && align_is_const && layout.align() <= min_align;",
+     "let can_elide_aligning_for_layout = size_is_multiple_of_align && align_is_const;")])
+M("c01_bump_up_fast_path_align_with_min_align", ["C01"], ["C01.R6"], [
+    ("src/bumping.rs", """            start = up_align_unchecked(start, layout.align());
+        }
+
+        if size_is_const && layout.size() < MIN_CHUNK_ALIGN {""", """            start = up_align_unchecked(start, min_align);
+        }
+
+        if size_is_const && layout.size() < MIN_CHUNK_ALIGN {""")])
+M("c01_prepare_down_no_remaining_check", ["C01"], ["C01.R7"], [
+    ("src/bumping.rs", """    let remaining = end.wrapping_sub(start) as isize;
+
+    if unlikely(layout.size() as isize > remaining) {
+        return None;
+    }
+
+    // Layout fits, we just trim off the excess to make start aligned.""", """    let remaining = end.wrapping_sub(start) as isize;
+
+    if unlikely(remaining < 0) {
+        return None;
+    }
+
+    // Layout fits, we just trim off the excess to make start aligned.""")])
+M("c01_prepare_up_end_not_aligned", ["C01"], ["C01.R6"], [
+    ("src/bumping.rs", """    let end = down_align(end, layout.align());
+
+    debug_assert_aligned!(start, layout.align());
+    debug_assert_aligned!(end, layout.align());
+    debug_assert_ne!(start, 0);
+    debug_assert_ne!(end, 0);
+
+    Some(start..end)
+}
+
+/// Prepares""", """    let end = down_align(end, min_align);
+
+    debug_assert_aligned!(start, layout.align());
+    debug_assert_ne!(start, 0);
+    debug_assert_ne!(end, 0);
+
+    Some(start..end)
+}
+
+/// Prepares""")])
